@@ -236,6 +236,9 @@ func (f *Frame) run(order []*ssa.BasicBlock, in map[*ssa.BasicBlock][]edge, with
 			if within != nil && !within[to] {
 				return
 			}
+			if cond == "false" {
+				return // statically unreachable
+			}
 			in[to] = append(in[to], edge{b, cond, s})
 		}
 		terminated := false
@@ -319,7 +322,7 @@ func (f *Frame) loopHead(li *loopInfo, pc string, st *State, order []*ssa.BasicB
 			vc.assert(vc.typed(nv, et, 2))
 		}
 	}
-	var comps []string
+	var comps, havocked []string
 	if rec.all {
 		for k := range vc.compSorts {
 			comps = append(comps, k)
@@ -341,11 +344,15 @@ func (f *Frame) loopHead(li *loopInfo, pc string, st *State, order []*ssa.BasicB
 			continue
 		}
 		h.heap[k] = vc.freshConst("hv "+k, srt)
+		havocked = append(havocked, k)
 	}
 	if rec.alloc || rec.all {
 		na := vc.freshConst("alloc", "Int")
 		vc.assert(fmt.Sprintf("(>= %s %s)", na, st.alloc))
 		h.alloc = na
+	}
+	for _, k := range havocked {
+		vc.assertCompWF(h.heap[k], k, h.alloc)
 	}
 	// 4. assume invariants
 	env := f.env(h)
@@ -673,7 +680,7 @@ func (f *Frame) load(l *Loc, st *State, pc string, pos token.Pos) string {
 			}
 			var fs []string
 			for i := 0; i < sty.NumFields(); i++ {
-				c := vc.comp(st, fieldComp(name, sty.Field(i).Name()), vc.fieldCompSort(sty.Field(i).Type()))
+				c := vc.comp(st, fieldComp(name, sty.Field(i).Name()), vc.fieldCompSort(sty.Field(i).Type()), sty.Field(i).Type())
 				fs = append(fs, fmt.Sprintf("(select %s %s)", c, l.Ref))
 			}
 			return "(" + q("mk "+name) + " " + strings.Join(fs, " ") + ")"
@@ -684,13 +691,13 @@ func (f *Frame) load(l *Loc, st *State, pc string, pos token.Pos) string {
 		sty, name, _ := structOf(l.Base.Typ)
 		if l.Base.Kind == LocRef {
 			f.nilCheck(l.Base.Ref, pc, pos)
-			c := vc.comp(st, fieldComp(name, sty.Field(l.Field).Name()), vc.fieldCompSort(sty.Field(l.Field).Type()))
+			c := vc.comp(st, fieldComp(name, sty.Field(l.Field).Name()), vc.fieldCompSort(sty.Field(l.Field).Type()), sty.Field(l.Field).Type())
 			return fmt.Sprintf("(select %s %s)", c, l.Base.Ref)
 		}
 		vc.structSort(name, sty)
 		return fmt.Sprintf("(%s %s)", fieldSel(name, sty.Field(l.Field).Name(), l.Field), f.load(l.Base, st, pc, pos))
 	case LocElem:
-		c := vc.comp(st, elemComp(l.Typ), vc.elemCompSort(l.Typ))
+		c := vc.comp(st, elemComp(l.Typ), vc.elemCompSort(l.Typ), l.Typ)
 		return fmt.Sprintf("(select (select %s %s) %s)", c, l.Arr, l.Idx)
 	case LocArray:
 		unsup("load of whole array through pointer")
@@ -728,7 +735,7 @@ func (f *Frame) store(l *Loc, v string, st *State, pc string, pos token.Pos) {
 			v = vc.define("sv", vc.sortOf(l.Typ), v)
 			for i := 0; i < sty.NumFields(); i++ {
 				cn := fieldComp(name, sty.Field(i).Name())
-				c := vc.comp(st, cn, vc.fieldCompSort(sty.Field(i).Type()))
+				c := vc.comp(st, cn, vc.fieldCompSort(sty.Field(i).Type()), sty.Field(i).Type())
 				f.noteCompSt(st, cn)
 				st.heap[cn] = vc.define("h", vc.compSorts[cn], fmt.Sprintf("(store %s %s (%s %s))", c, l.Ref, fieldSel(name, sty.Field(i).Name(), i), v))
 			}
@@ -743,7 +750,7 @@ func (f *Frame) store(l *Loc, v string, st *State, pc string, pos token.Pos) {
 		if l.Base.Kind == LocRef {
 			f.nilCheck(l.Base.Ref, pc, pos)
 			cn := fieldComp(name, sty.Field(l.Field).Name())
-			c := vc.comp(st, cn, vc.fieldCompSort(sty.Field(l.Field).Type()))
+			c := vc.comp(st, cn, vc.fieldCompSort(sty.Field(l.Field).Type()), sty.Field(l.Field).Type())
 			f.noteCompSt(st, cn)
 			st.heap[cn] = vc.define("h", vc.compSorts[cn], fmt.Sprintf("(store %s %s %s)", c, l.Base.Ref, v))
 			return
@@ -761,7 +768,7 @@ func (f *Frame) store(l *Loc, v string, st *State, pc string, pos token.Pos) {
 		f.store(l.Base, "("+q("mk "+name)+" "+strings.Join(fs, " ")+")", st, pc, pos)
 	case LocElem:
 		cn := elemComp(l.Typ)
-		c := vc.comp(st, cn, vc.elemCompSort(l.Typ))
+		c := vc.comp(st, cn, vc.elemCompSort(l.Typ), l.Typ)
 		f.noteCompSt(st, cn)
 		st.heap[cn] = vc.define("h", vc.compSorts[cn], fmt.Sprintf("(store %s %s (store (select %s %s) %s %s))", c, l.Arr, c, l.Arr, l.Idx, v))
 	default:
@@ -811,7 +818,7 @@ func (f *Frame) instr(ins ssa.Instruction, pc string, st *State) string {
 		if at, ok := et.Underlying().(*types.Array); ok {
 			id := f.newRef(st, "array")
 			cn := elemComp(at.Elem())
-			c := vc.comp(st, cn, vc.elemCompSort(at.Elem()))
+			c := vc.comp(st, cn, vc.elemCompSort(at.Elem()), at.Elem())
 			f.noteCompSt(st, cn)
 			st.heap[cn] = vc.define("h", vc.compSorts[cn], fmt.Sprintf("(store %s %s ((as const (Array Int %s)) %s))", c, id, vc.sortOf(at.Elem()), vc.zero(at.Elem())))
 			f.vals[t] = Val{Loc: &Loc{Kind: LocArray, Ref: id, Typ: et}, Typ: t.Type()}
@@ -901,7 +908,7 @@ func (f *Frame) instr(ins ssa.Instruction, pc string, st *State) string {
 		f.safe(pc, "make", t.Pos(), fmt.Sprintf("(and (<= 0 %s) (<= %s %s) (<= %s 281474976710656))", ln, ln, cp, cp), "make: 0 <= len <= cap <= 2^48 (runtime panics otherwise)")
 		id := f.newRef(st, "make")
 		cn := elemComp(et)
-		c := vc.comp(st, cn, vc.elemCompSort(et))
+		c := vc.comp(st, cn, vc.elemCompSort(et), et)
 		f.noteCompSt(st, cn)
 		st.heap[cn] = vc.define("h", vc.compSorts[cn], fmt.Sprintf("(store %s %s ((as const (Array Int %s)) %s))", c, id, vc.sortOf(et), vc.zero(et)))
 		f.setVal(t, fmt.Sprintf("(mk_slice %s 0 %s %s)", id, ln, cp))
@@ -1255,6 +1262,7 @@ func (f *Frame) box(x Val, t types.Type) string {
 	term := f.termOf(x)
 	r := vc.define("iface", "Iface", fmt.Sprintf("(%s %s)", box, term))
 	vc.assert(fmt.Sprintf("(and (= (iface_tag %s) %d) (= (%s %s) %s))", r, vc.typeTag(t), unbox, r, term))
+	vc.knownTag[r] = vc.typeTag(t)
 	return r
 }
 
@@ -1269,6 +1277,9 @@ func (f *Frame) typeAssert(t *ssa.TypeAssert, pc string, st *State) {
 	} else {
 		_, unbox := vc.boxFns(at)
 		ok = fmt.Sprintf("(= (iface_tag %s) %d)", x.T, vc.typeTag(at))
+		if kt, known := vc.knownTag[x.T]; known {
+			ok = fmt.Sprint(kt == vc.typeTag(at))
+		}
 		val = fmt.Sprintf("(%s %s)", unbox, x.T)
 	}
 	if t.CommaOk {
@@ -1407,7 +1418,7 @@ func (f *Frame) convert(t *ssa.Convert, pc string, st *State) {
 		if sl, ok := to.(*types.Slice); ok && isByte(sl.Elem()) {
 			id := f.newRef(st, "bytes")
 			cn := elemComp(sl.Elem())
-			c := vc.comp(st, cn, vc.elemCompSort(sl.Elem()))
+			c := vc.comp(st, cn, vc.elemCompSort(sl.Elem()), sl.Elem())
 			f.noteCompSt(st, cn)
 			content := vc.freshConst("content", "(Array Int Int)")
 			vc.assert(fmt.Sprintf("(forall ((i Int)) (! (=> (and (<= 0 i) (< i (slen %s))) (= (select %s i) (sat %s i))) :pattern ((select %s i))))", x.T, content, x.T, content))
@@ -1473,7 +1484,7 @@ func rangeWithin(flo, fhi, lo, hi string) bool {
 func (f *Frame) bytesToString(sl string, st *State) string {
 	vc := f.vc
 	et := types.Typ[types.Uint8]
-	c := vc.comp(st, elemComp(et), vc.elemCompSort(et))
+	c := vc.comp(st, elemComp(et), vc.elemCompSort(et), et)
 	r := vc.freshConst("str", "Str")
 	vc.assert(fmt.Sprintf("(= (slen %s) (len %s))", r, sl))
 	vc.assert(fmt.Sprintf("(forall ((i Int)) (! (=> (and (<= 0 i) (< i (len %s))) (= (sat %s i) (select (select %s (arr %s)) (+ (off %s) i)))) :pattern ((sat %s i))))", sl, r, c, sl, sl, r))
